@@ -284,6 +284,7 @@ def Editor.insertDefTableOpts (ed : Editor α) (pos : Int) (defs : List (List α
     let pad ← if (gLen cx term : Int) < longest then repeatStr [cx.sp] (longest - (gLen cx term : Int)) else pure []
     let leftCol := [[cx.sp, cx.sp] ++ term ++ pad]
     let rc ← wrapLines cx item.2 (rightWidth - 2) o.lineSep
+    let rc := if rc.isEmpty then [[]] else rc
     let rightCol := (List.range rc.length).map fun i =>
       (if i == 0 then [cx.hy, cx.sp] else [cx.sp, cx.sp]) ++ rc.getD i []
     let combined ← combineColumns cx leftCol rightCol 2
